@@ -680,7 +680,7 @@ impl World for PsetFlowWorld {
                 let mut tokens = Vec::new();
                 for _ in 0..p.urange(1, 3) {
                     let id = gen::asset_id(&mut p);
-                    let n = p.usize_below(80);
+                    let n = p.len_biased(400);
                     let contract: String = (0..n).map(|_| if p.chance(1, 10) { 'é' } else { (b' ' + p.below(90) as u8) as char }).collect();
                     let prevout = OutPoint::new(gen::txid(&mut p), p.u32());
                     let first = ps.add_asset_metadata(id, &AssetMetadata::new(contract.clone(), prevout));
